@@ -96,6 +96,8 @@ GRIDS = {
         unit=3000, lat=_rng(-270000, 270000, 1000), lon=_rng(-540000, 540000, 1000),
         win_lat=[120000, 121000, 122000, 123000, 124000], win_lon=[30000, 31000, 32000, 33000, 34000], am=True,
     ),
+    # global 0.25 degree (721 x 1441 lines): the finest grid, for legs that cross very many lines
+    'quarter': dict(lat=_rng(-90000, 90000, 250), lon=_rng(-HALF, HALF, 250), win_lat=None, win_lon=None, am=True),
     # NON-uniform global grid with the same extent and number of lines as 'deg1'
     # (odd latitude lines 0.3 degree, every third longitude line 0.4 degree further on)
     'warp1': dict(
@@ -313,6 +315,7 @@ def sublattices(tier, seed=0):
     subs += tiny_sublattices()
     subs += world_sublattices()
     subs += edge_sublattices()
+    subs += size_sublattices()
     subs += representation_sublattices()
     subs += nano_sublattices()
     subs += even_grid_sublattices()
@@ -355,6 +358,88 @@ def world_sublattices():
             name=f'am-world:{gid}', cases=cs,
             axes={'ring_lon_mdeg': WORLD_RING, 'points': [2, 3, 4, 5, 6, 7], 'start': n, 'direction': ['east', 'west'], 'latitudes': ['varying', 'constant']},
         ))  # fmt: skip
+    return subs
+
+
+# SIZE as an axis: one leg crossing many grid lines (20, 40, 70 of one axis or of both) combined
+# in every order with short special legs (exact meridian / parallel over 2-3 lines, exact corner
+# hit, repeated point, leg inside one cell), on the 1, 0.25 and 0.1 degree grids; the same next
+# to the antimeridian; and trajectories of 100 and 300 points
+SIZE_GRIDS = {'deg1': (1000, (-40000, 20000)), 'quarter': (250, (10000, 10000)), 'tenth': (100, (40000, 10000))}
+SIZE_N = [41, 81, 141]  # long legs: N/2 cells, i.e. 20.5, 40.5, 70.5
+SIZE_SHORT = {'meridian+': (5, 0), 'meridian-': (-5, 0), 'parallel': (0, 5), 'corner': (2, 2), 'repeat': (0, 0), 'inside': (0.4, 0.2)}  # in half cells
+
+
+def _long_legs(sizes):
+    out = []
+    for n in sizes:
+        out += [(f'zonal{n}', (0, n)), (f'meridional{n}', (n, 0)), (f'diagonal{n}', ((n - 1) // 2, n))]
+    return out
+
+
+def _chain(gid, start_half, legs):
+    c, anchor = SIZE_GRIDS[gid]
+    h = c // 2
+    pts = [(anchor[0] + round(start_half[0] * h), anchor[1] + round(start_half[1] * h))]
+    for d0, d1 in legs:
+        pts.append((pts[-1][0] + round(d0 * h), pts[-1][1] + round(d1 * h)))
+    if any(abs(q[0]) > 89000 or abs(q[1]) > 179000 for q in pts):
+        return None  # would leave the globe (only some 70-cell chains on the 1 degree grid)
+    return _case(gid, pts)
+
+
+def size_sublattices():
+    subs = []
+    short = list(SIZE_SHORT.values())
+    neg = lambda v: (-v[0], -v[1])  # noqa: E731
+    for gid in SIZE_GRIDS:
+        cs = []
+        for start in ((1, 1), (1, 0), (0, 0)):  # cell centre, on a longitude line, on a corner
+            for _, L in _long_legs(SIZE_N):
+                for S in short:
+                    cs.append(_chain(gid, start, [L, S]))
+                    cs.append(_chain(gid, start, [S, L]))
+        for _, L in _long_legs([SIZE_N[0], SIZE_N[2]]):
+            for S, S2 in itertools.product(short, repeat=2):
+                cs.append(_chain(gid, (1, 1), [S, L, S2]))
+        for (_, L), (_, L2) in itertools.product(_long_legs([SIZE_N[0], SIZE_N[2]]), repeat=2):
+            for S in short:
+                cs.append(_chain(gid, (1, 1), [L, S, neg(L2)]))
+        cs = [c for c in cs if c is not None]
+        subs.append(dict(
+            name=f'size:{gid}', cases=cs,
+            axes={'long leg': [k for k, _ in _long_legs(SIZE_N)], 'short leg': list(SIZE_SHORT), 'order': ['LS', 'SL', 'SLS', 'LSL'], 'start': ['cell centre', 'on a line', 'on a corner']},
+        ))  # fmt: skip
+    # next to the antimeridian: long zonal leg, the crossing, a short special leg - and reversed
+    cs = []
+    for gid in ('quarter', 'tenth'):
+        c = SIZE_GRIDS[gid][0]
+        h = c // 2
+        for n in (41, 141):
+            a = (40000 + h, HALF - h - n * h)
+            b = (40000 + h, HALF - h)
+            x = (40000 + h + 2 * h, -HALF + h)
+            for d0, d1 in short:
+                y = (x[0] + round(d0 * h), x[1] + round(d1 * h))
+                cs.append(_case(gid, (a, b, x, y)))
+                cs.append(_case(gid, (y, x, b, a)))
+    subs.append(dict(name='size-am', axes={'grid': ['quarter', 'tenth'], 'long leg cells': [20.5, 70.5], 'short leg': list(SIZE_SHORT), 'direction': 2}, cases=cs))
+    # many points: a zigzag of special legs, optionally with one long leg at the start / middle / end
+    cycle = [(5, 0), (0, 5), (2, 2), (0, 0), (0.4, 0.2), (-5, 0), (-2.6, 1.4)]
+    cs = []
+    for gid in ('deg1', 'tenth'):
+        for npts in (100, 300):
+            for shift in (0, 3):
+                for where in (None, 'first', 'middle', 'last'):
+                    legs = []
+                    for k in range(npts - 1):
+                        d0, d1 = cycle[(k + shift) % 7]
+                        legs.append((d0, d1 if (k // 7) % 2 == 0 else -d1))
+                    if where:
+                        legs[{'first': 0, 'middle': (npts - 1) // 2, 'last': npts - 2}[where]] = (0, 141)
+                    cs.append(_chain(gid, (1, 1), legs))
+    cs = [c for c in cs if c is not None]
+    subs.append(dict(name='many-points', axes={'grid': ['deg1', 'tenth'], 'points': [100, 300], 'phase': 2, 'long leg': ['none', 'first', 'middle', 'last']}, cases=cs))
     return subs
 
 
@@ -728,6 +813,17 @@ def case_params(case):
     )  # fmt: skip
 
 
+def integrated_values(pattern, j, nseg):
+    """Value of integrated variable j on each of nseg segments (the 7-entry table, repeated)."""
+    t = VALS[pattern][j]
+    return [t[k % len(t)] for k in range(nseg)]
+
+
+def state_values(j, npts):
+    """State variable 0 is the point (= segment) number; the others repeat their table."""
+    return [float(k) if j == 0 else STATE[j][k % len(STATE[j])] for k in range(npts)]
+
+
 REPS = ['i64', 'i32', 'f32', 'list', 'readonly', 'strided']
 
 
@@ -771,8 +867,8 @@ def run_impl(p, ns=None, ni=None, fresh=False):
     times = np.array(p['time'], dtype=float) if p['v'] in ('time', 'alt+time') else None
     # the representation axis applies to the integrated variables and to the (whole-numbered)
     # state variable 0
-    sv = tuple(represent(STATE[j][:n], p['rep'] if j == 0 else None) for j in range(ns))
-    iv = tuple(represent(VALS[p['vals']][j][: n - 1], p['rep']) for j in range(ni))
+    sv = tuple(represent(state_values(j, n), p['rep'] if j == 0 else None) for j in range(ns))
+    iv = tuple(represent(integrated_values(p['vals'], j, n - 1), p['rep']) for j in range(ni))
     keep = [np.array(a, dtype=float) for a in (lats, lons) + sv + iv]
     try:
         with np.errstate(all='ignore'):
